@@ -25,6 +25,25 @@ def worker_init():
 def run_impl(op, inp):
     from admin.certificate import HSMCertificate
     from admin.certificate_v2 import HSMCertificateV2ElementX509
+    import admin.certificate_v2 as v2mod
+    import datetime as _dt
+    off = inp.get("clock_offset_s", 0)
+
+    class _Clock(_dt.datetime):
+        """the wall clock as the verification sees it (`now` is a parameter of the property)"""
+        @classmethod
+        def now(cls, tz=None):
+            return _dt.datetime.now(tz) + _dt.timedelta(seconds=off)
+    real_dt = v2mod.datetime
+    v2mod.datetime = _Clock
+    try:
+        return _run(inp)
+    finally:
+        v2mod.datetime = real_dt
+
+
+def _run(inp):
+    from admin.certificate_v2 import HSMCertificateV2ElementX509
     try:
         cert = HSMCertificate(inp["cert"]) if False else __import__("admin.certificate", fromlist=["x"]).HSMCertificateV2(inp["cert"])
         root = HSMCertificateV2ElementX509.from_pem(inp["root_pem"], "sgx_root", "sgx_root")
@@ -40,16 +59,18 @@ def run_impl(op, inp):
         return "error"
 
 
-def model_input(cert, root_cert):
+def model_input(cert, root_cert, clock_offset_s=0):
+    import datetime as _dt
+    now = _dt.datetime.now(_dt.timezone.utc) + _dt.timedelta(seconds=clock_offset_s)
     els = cert["elements"]
     bymap = {e["name"]: e for e in els}
     links, values = {}, {}
     for e in bymap.values():
         sb = e["signed_by"]
         if sb == "sgx_root":
-            links["%s|" % e["name"]] = sgxgen.link_valid(e, ("root", root_cert))
+            links["%s|" % e["name"]] = sgxgen.link_valid(e, ("root", root_cert), now=now)
         elif sb in bymap:
-            links["%s|%s" % (e["name"], sb)] = sgxgen.link_valid(e, bymap[sb])
+            links["%s|%s" % (e["name"], sb)] = sgxgen.link_valid(e, bymap[sb], now=now)
         if e.get("type") == "sgx_quote":
             values[e["name"]] = {"message": e["custom_data"], "quote": e["message"][:432 * 2]}
     return {"root": "sgx_root", "targets": cert["targets"],
@@ -128,9 +149,13 @@ def gen(tier, rng):
             cert, root = corrupt(rng, m, cert, k=i % 9)
             kind = "corrupted"
         from cryptography.hazmat.primitives import serialization
-        inp = {"cert": cert, "root_pem": root.public_bytes(serialization.Encoding.PEM).decode()}
+        # the verification's clock: now, far in the future (everything expired), in the past (nothing valid yet)
+        off = rng.choice([0, 0, 0, 3600 * 24 * 4000, -3600 * 24 * 30, 3600 * 24 * 3649, 3600 * 24 * 3651])
+        if off:
+            kind += "+clock"
+        inp = {"cert": cert, "root_pem": root.public_bytes(serialization.Encoding.PEM).decode(), "clock_offset_s": off}
         try:
-            inp.update(model_input(cert, root))
+            inp.update(model_input(cert, root, off))
         except Exception:
             continue
         out.append(Case(OP, inp, stream=kind))
